@@ -242,6 +242,47 @@ def run(chk):
     # ---- V admission dominance
     admission(chk, c, 'C10-V')
 
+    # ---- Y: the proxy is a live view
+    chk.rule('C10-Y', 'ElementProxy is a live view of its ElementList: `list` and `traversal_list` are looked up in '
+                      'element_list.indexes / traversal_indexes at every access, and no method of the proxy keeps a copy of such a '
+                      'look-up in the proxy (ElementList may replace or drop the list it files under a name)')
+    import ast as _ast
+    from ..src import own_nodes as _own, norm as _norm
+    px = ix.cls('core.ElementProxy')
+    if px is None:
+        raise AnalysisError('ElementProxy not found')
+    ny = 0
+    MAPS = ('indexes', 'traversal_indexes')
+
+    def _reads_map(e):
+        return any(isinstance(x, _ast.Attribute) and x.attr in MAPS for x in _ast.walk(e))
+    for pname in ('list', 'traversal_list'):
+        getter = px.properties.get(pname, (None, None))[0]
+        if getter is None:
+            raise AnalysisError('ElementProxy.%s is no longer a property' % pname)
+        for r in [x for x in _own(getter.node) if isinstance(x, _ast.Return)]:
+            ny += 1
+            v = r.value
+            # a local variable is followed to its assignments
+            srcs = [v]
+            if isinstance(v, _ast.Name):
+                srcs = [a.value for a in _own(getter.node) if isinstance(a, _ast.Assign) and
+                        any(isinstance(t, _ast.Name) and t.id == v.id for t in a.targets)] or [v]
+            ok = v is not None and all(_reads_map(e) or (isinstance(e, (_ast.List, _ast.Tuple)) and not e.elts) for e in srcs)
+            chk.ob('C10-Y', 'ElementProxy.%s returns a fresh look-up' % pname, ok,
+                   '' if ok else '`%s` does not read element_list.%s: by-name access, len, `in` and indexing through the proxy can '
+                   'disagree with the children the list holds' % (_norm(r), ' / '.join(MAPS)),
+                   '%s:%d' % (getter.module.relpath, r.lineno), key='C10-Y|%s|return' % pname)
+    for mname, fi in sorted(px.methods.items()):
+        for n in _own(fi.node):
+            if isinstance(n, _ast.Assign) and any(isinstance(t, _ast.Attribute) and _norm(t.value) == 'self' for t in n.targets) \
+                    and _reads_map(n.value):
+                ny += 1
+                chk.fail('C10-Y', '%s keeps a by-name look-up in the proxy' % fi.qualname,
+                         '`%s`: the stored list goes stale when ElementList re-files or drops the entry' % _norm(n)[:90],
+                         '%s:%d' % (fi.module.relpath, n.lineno), key='C10-Y|%s|store' % fi.qualname)
+    chk.floor('proxy look-ups examined (C10-Y)', ny, 2)
+
     chk.rule('C10-D', 'decision structure of the functions this property is anchored in: every effect statement (store, call, return, '
                    'raise) runs under the same combinations of the function\'s elementary tests as in the reviewed tree, and none '
                    'was deleted (reference/decisions.json; compared by meaning, rewritten functions are not compared)')
